@@ -394,6 +394,58 @@ def _canon_rule(chk, prog):
                       "equal hashes are laid out in insertion order, so equal structs stop being equal" % (var, rhs.text()[:80]))
 
 
+def _sealed_rule(chk, prog):
+    """janet_struct_end computes the struct's stored hash from its pairs AND its prototype; equality compares stored
+    hashes first.  So everything that feeds the identity must be in place before the struct is finished: a store through
+    janet_struct_proto / janet_struct_hash / janet_struct_length on a finished struct (a `JanetStruct`, i.e. const
+    pointer, or the result of janet_struct_end / janet_table_to_struct) makes two structs with the same content and
+    prototype unequal."""
+    rule = "C03-SEALED"
+    chk.rule(rule, "no identity-bearing head field of a struct is written after the struct was finished (its hash computed)")
+    HEAD = ("janet_struct_proto", "janet_struct_hash", "janet_struct_length", "janet_struct_capacity")
+    FINISHERS = ("janet_struct_end", "janet_table_to_struct")
+    n = 0
+    for fn in prog.all_funcs():
+        writes = [x for x in fn.nodes if x.k in ("asg",) and any(x.kids[0].in_macro(m) for m in HEAD)]
+        writes += [x for x in fn.nodes if x.k == "un" and x.op in ("pre++", "post++", "pre--", "post--") and any(x.kids[0].in_macro(m) for m in HEAD)]
+        if not writes:
+            continue
+        chk.analysed(fn)
+
+        def transfer(st, x):
+            tgt = rhs = None
+            if x.k == "vardecl" and x.kids:
+                tgt, rhs = x.name, strip_casts(x.kids[0])
+            elif x.k == "asg" and x.op == "=" and is_ref(x.kids[0]):
+                tgt, rhs = x.kids[0].name, strip_casts(x.kids[1])
+            if tgt:
+                st = st - {tgt}
+                if rhs is not None and rhs.k == "call" and rhs.callee in FINISHERS:
+                    st = st | {tgt}
+            return st
+        IN, OUT = flow.forward(fn, frozenset(), transfer, lambda a, b: a | b)
+        for x, st in flow.states_at(fn, IN, transfer):
+            if x not in writes:
+                continue
+            n += 1
+            chk.instance(rule)
+            bases = [y for y in x.kids[0].walk() if y.k == "ref" and y.d.get("d") in ("var", "parm")]
+            bad = None
+            for b in bases:
+                t = (b.t or "")
+                if b.name in st or t.startswith("const JanetKV") or t.startswith("JanetStruct"):
+                    bad = b
+            # inside janet_struct_end itself the head is being finalised
+            if bad is not None and fn.name not in ("janet_struct_end",):
+                chk.violation(rule, fn.tu.name, fn.name, "%s:%s" % ([m for m in HEAD if x.kids[0].in_macro(m)][0], bad.name), x.loc,
+                              "`%s` changes an identity-bearing field of `%s` after the struct was finished: its stored hash was "
+                              "computed without this value, so it is unequal to (and hashes differently from) the same struct built the "
+                              "other way round" % (x.text()[:70], bad.name))
+            else:
+                chk.ok(rule, "%s: %s on a struct still under construction" % (fn.name, x.text()[:50]))
+    chk.floor(rule, 5, n)
+
+
 def run(chk):
     prog = Program.load("default")
     _tombstone_rule(chk, prog)
@@ -403,3 +455,4 @@ def run(chk):
     _beginend_rule(chk, prog)
     _negzero_rule(chk, prog)
     _canon_rule(chk, prog)
+    _sealed_rule(chk, prog)
